@@ -516,3 +516,15 @@ Theorem C05_empty_option_previous_refuted :
   /\ exists D', parse_file_tokens w2_imp w2_prev_tokens = Some D' /\ ~ desc_equiv w2_file D'.
 Proof. exact empty_option_previous_refuted. Qed.
 Print Assumptions C05_empty_option_previous_refuted.
+
+(* LIVE known finding (C05 + C16): the compiler accepts identifiers with non-ASCII letters (`object Élan { field
+   naïve string }`; the BCL lexer takes unicode letters) and builds message Élan { string naïve = 1; }. The
+   descriptor satisfies wf_dfile (identifiers are byte strings at token level), but its printed tokens are not tokens of
+   the lexer model: the one-space rendering does not scan back to them (the real protocompile lexer: invalid
+   character). The text theorem C05_text_roundtrip does not apply to it: its is_layout premise has no witness. *)
+Theorem C05_non_ascii_identifier_refuted :
+  wf_dfile w3_imp w3_file
+  /\ forallb tok_ok w3_tokens = false
+  /\ scan_text (spaced w3_tokens) <> Some w3_tokens.
+Proof. exact non_ascii_identifier_witness. Qed.
+Print Assumptions C05_non_ascii_identifier_refuted.
